@@ -28,7 +28,11 @@ var c05Pages = []string{
 	`<p>alpha beta</p><iframe src="https://www.youtube.com/embed/abc" data-zzk="zq9"></iframe>`,
 	// 6 list, quote, pre
 	`<ul data-zzk="zq9"><li data-zzk="zq9">item one</li></ul><blockquote data-zzk="zq9"><p>quoted words</p></blockquote><pre data-zzk="zq9">pre text</pre>`,
-	// 7 figure without caption, picture
+	// 7 unrendered tweet (embed whose own markup is kept inside the placeholder)
+	`<p>alpha beta</p><blockquote class="twitter-tweet" data-zzk="zq9"><p data-zzk="zq9">tweet text <span data-zzk="zq9">here</span></p><script>var w=1</script><a href="https://twitter.com/u/status/123" data-zzk="zq9">date</a></blockquote>`,
+	// 8 rendered tweet iframe
+	`<p>alpha beta</p><iframe src="https://platform.twitter.com/embed/x" data-tweet-id="123" data-zzk="zq9"></iframe>`,
+	// 9 figure without caption, picture
 	`<p>alpha beta</p><figure data-zzk="zq9"><picture data-zzk="zq9"><source srcset="s.png 1x" data-zzk="zq9"><img src="p.png" data-zzk="zq9"></picture></figure>`,
 }
 
@@ -84,7 +88,7 @@ func HarnessC05Output() {
 	} else if strings.Contains(out, "zq9") {
 		vx.Cover("kept")
 	}
-	if kind != 5 {
+	if kind != 5 && kind != 7 && kind != 8 {
 		vx.Assert(!strings.Contains(out, " class=") && !strings.Contains(out, " data-"), "class/data-* attribute outside an embed placeholder")
 	} else {
 		vx.Cover("placeholder")
